@@ -2332,6 +2332,25 @@ def rt_c08_definitions(first_only=False, count=None):
     emb = B.EmbedCondition(addc, lambda cc: cc[:2] * 2.0, (4,))
     c4 = jnp.asarray(rng.normal(size=4))
     chk("EmbedCondition passes the embedded condition", emb.transform(x, c4), addc.transform(x, c4[:2] * 2.0))
+    # an unconditional bijection ignores a supplied condition (inside a conditional Chain / Concatenate / Stack every child gets it)
+    X4 = jnp.asarray(rng.normal(size=(2, 2)))
+    uncond = [("Reshape", B.Reshape(B.Affine(jnp.arange(4.0), jnp.arange(1.0, 5.0)), (2, 2)), X4), ("Invert", B.Invert(a1), x), ("Chain", B.Chain([a1, a2]), x), ("Concatenate", B.Concatenate([a1, a2]), jnp.concatenate([x, x])),
+              ("Stack", B.Stack([a1, a2]), jnp.stack([x, -x])), ("Partial", B.Partial(B.Exp((2,)), slice(0, 2), (3,)), x), ("Scan", sc, x), ("Permute", perm, x), ("Vmap", vm, jnp.stack([x, x, -x]))]
+    for nm, ub, xx in uncond:
+        for meth in ("transform", "inverse", "transform_and_log_det", "inverse_and_log_det"):
+            try:
+                got = getattr(ub, meth)(xx, c)
+            except Exception as ex:  # noqa: BLE001
+                n += 1
+                fails.append(dict(what=f"unconditional {nm}.{meth}(x, condition) raised {type(ex).__name__}: {str(ex)[:120]} (an unconditional bijection ignores the condition)", case=dict(check=f"{nm} ignores condition")))
+                continue
+            chk(f"unconditional {nm}.{meth} ignores a supplied condition", got, getattr(ub, meth)(xx))
+    rchain = B.Chain([B.Reshape(B.Affine(jnp.arange(3.0), jnp.arange(1.0, 4.0)), (3,)), addc])
+    try:
+        chk("Chain([Reshape(unconditional), AdditiveCondition]) folds its children", rchain.transform(x, c), addc.transform(x * jnp.arange(1.0, 4.0) + jnp.arange(3.0), c))
+    except Exception as ex:  # noqa: BLE001
+        n += 1
+        fails.append(dict(what=f"Chain([Reshape(unconditional), AdditiveCondition]).transform(x, condition) raised {type(ex).__name__}: {str(ex)[:120]}", case=dict(check="Reshape in conditional Chain")))
     if count is not None:
         count.append(n)
     return fails
